@@ -93,11 +93,11 @@ Begin == /\ stage \in {"prefix", "suffix", "contents", "transform"} /\ phase = "
                                i \in {File(f).ino : f \in g.files}} : g \in {h \in groups : Pre(stage, h)}}
          /\ got' = {} /\ phase' = "tasks" /\ UNCHANGED <<inp, stage, groups, failed>>
 
-\* the paths of a run are tried in some order until one can be read: `dropped` are the unreadable ones tried before it
+\* the paths of a run are tried in some order until one can be read: `dropped` are the ones whose read failed before that.
+\* A path of inp.bad MAY fail at any attempt (a fault can begin at a later stage); once it has failed it is out of every later stage.
 Task(r) == /\ phase = "tasks" /\ r \in todo
            /\ todo' = todo \ {r}
            /\ \E dropped \in SUBSET (r.files \cap inp.bad) :
-                 /\ (r.files \subseteq inp.bad) => dropped = r.files
                  /\ got' = got \cup {[f |-> f, len |-> NewLen(stage, CHOOSE x \in r.files : TRUE, r.len),
                                         hash |-> NewHash(stage, CHOOSE x \in r.files : TRUE, r.old)] : f \in r.files \ dropped}
                  /\ failed' = failed \cup dropped
